@@ -247,6 +247,9 @@ def multi_order_stream(chk, n, do_model=True):
     if not ok:
         chk.broken.append(('Sim/MultiOrder.vo', log[-600:])); return
     snaps = []; ncase = 0
+    import stockpyl.sim as _sim
+    if not hasattr(_sim, '_receive_inbound_orders'):
+        chk.broken.append(('multi-product ordering-step correspondence', 'sim._receive_inbound_orders (the point at which the state handed to the ordering loop is read) no longer exists')); return
     for _ in range(n):
         c = simmon.gen_multi(chk.rng, nmax=5, tmax=10); c['mode'] = 'multi'
         c = simmon.multi_from_json(json.loads(json.dumps(jsonable(c))))
